@@ -166,6 +166,7 @@ func c13StartRelay(t *testing.T, host string, server netip.AddrPort) *c13Relay {
 	r := &c13Relay{conn: pc.(*net.UDPConn), server: server}
 	go func() {
 		var cli netip.AddrPort
+		clis := map[uint16]netip.AddrPort{}
 		buf := make([]byte, 65536)
 		for {
 			n, from, err := r.conn.ReadFromUDPAddrPort(buf)
@@ -181,9 +182,17 @@ func c13StartRelay(t *testing.T, host string, server netip.AddrPort) *c13Relay {
 			} else {
 				r.reqs = append(r.reqs, pkt)
 				cli = from
+				clis[from.Port()] = from
 			}
 			r.mu.Unlock()
 			if from == r.server {
+				// several clients at a time: route by the SCION/UDP destination port
+				if _, _, u, dec, err := c13Decode(pkt); err == nil && len(dec) >= 2 &&
+					dec[len(dec)-1] == slayers.LayerTypeSCIONUDP {
+					if a, ok := clis[u.DstPort]; ok {
+						cli = a
+					}
+				}
 				out := [][]byte{pkt}
 				if onResp != nil {
 					out = onResp(pkt)
